@@ -42,3 +42,5 @@ Record cfg := mk_cfg {
 }.
 
 Definition opt_word (v : option str) : word := match v with Some s => WStr s | None => WNone end.
+
+Definition nonempty {A : Type} (l : list A) : bool := match l with [] => false | _ :: _ => true end.
